@@ -94,6 +94,38 @@ From Verif Require Import Facts_lexer LexBase LexCodeM LexerM LexTables RefTok E
    evaluated by the extracted model on every correspondence input (ctxsim). *)
 Definition lexer_ctx_sim_statement : Prop := forall src : bytes, ctx_sim_ok src = true.
 
+(* This first statement is FALSE: three gaps of the reference fragment, each
+   with a witness on which the lexer is right and the reference is not a
+   description of what a browser does any more:
+   - a show whose body holds a general comment with the closing braces inside
+     (the reference ends the show at the first pair of closing braces),
+   - a show between the name of an end tag and its greater-than sign (the
+     reference skips to the greater-than sign without recording it),
+   - a backslash in front of an end tag inside a string literal of a script
+     (the reference takes it for an escape of the less-than sign; a browser
+     ends the element).
+   None of them is a defect of the lexer; the corrected fragment is
+   RefTok2.opt_strict. *)
+From Verif Require Import RefTok2.
+Definition sim_w1 : bytes := [123;123;32;47;42;32;125;125;32;60;97;32;116;105;116;108;101;61;34;123;123;32;42;47;32;115;32;125;125;34;62].
+Definition sim_w2 : bytes := [60;115;99;114;105;112;116;62;60;47;115;99;114;105;112;116;32;120;61;34;123;123;32;115;32;125;125;34;62;123;123;32;115;32;125;125].
+Definition sim_w3 : bytes := [60;115;99;114;105;112;116;62;34;92;60;47;115;99;114;105;112;116;62;123;123;32;115;32;125;125].
+Theorem C06_lexer_ctx_sim_refuted : ~ lexer_ctx_sim_statement.
+Proof. intros H. specialize (H sim_w1). vm_compute in H. discriminate. Qed.
+Theorem C06_lexer_ctx_sim_refuted_end_tag : ctx_sim_ok sim_w2 = false.
+Proof. vm_compute. reflexivity. Qed.
+Theorem C06_lexer_ctx_sim_refuted_backslash : ctx_sim_ok sim_w3 = false.
+Proof. vm_compute. reflexivity. Qed.
+
+(* The corrected statement of layer (B): the same with the three gaps closed
+   (the witnesses are outside the fragment).  Stated, evaluated by the
+   extracted model on every correspondence input (ctxsim2), not proved in
+   full: see C06_lexer_ctx_sim_html_partial below. *)
+Definition lexer_ctx_sim_strict_statement : Prop := forall src : bytes, ctx_sim_ok2 opt_strict src = true.
+Example C06_strict_witnesses_outside :
+  map (ref_contexts2 opt_strict) [sim_w1; sim_w2; sim_w3] = [None; None; None].
+Proof. vm_compute. reflexivity. Qed.
+
 (* proved sub-lemmas, over the generated facts of isEndScript / isEndStyle:
    the end tag test of the lexer accepts exactly "</", the element name in any
    letter case and one of tab, LF, CR, space, ">" *)
